@@ -34,6 +34,13 @@ Proof.
 Qed.
 Print Assumptions C06_normal_form.
 
+(* the spec decoder is strict: it accepts only canonical bytes (minimal zarith numbers, reserved entrypoints by
+   tag, no explicit default/Unit parameters, exact lengths), so every byte string has at most one reading and a
+   decoded group re-encodes to the very bytes that were read *)
+Theorem C06_decoder_strict : forall bs g, dec_group bs = Some g -> enc_group g = bs /\ norm_group g = g.
+Proof. exact dec_group_strict. Qed.
+Print Assumptions C06_decoder_strict.
+
 (* pytezos' per-kind forgers produce exactly the canonical encoding, for every group (no
    well-formedness needed: the two descriptions agree byte for byte) *)
 Theorem C06_py_is_spec : forall g, forge_operation_group g = enc_group g.
